@@ -192,11 +192,17 @@ func (p *Path) check(c *Term) (SatResult, *cachedModel) {
 		}
 	}
 	s := p.w.solver
-	asserts := p.pc
-	if c != nil {
-		asserts = append(append([]*Term{}, p.pc...), c)
+	r, m := Unknown, Model(nil)
+	if inc := p.w.inc; inc != nil {
+		r, m = inc.Check(p.pc, c, p.vars())
 	}
-	r, m := s.Query(asserts, nil, p.vars())
+	if r == Unknown {
+		asserts := p.pc
+		if c != nil {
+			asserts = append(append([]*Term{}, p.pc...), c)
+		}
+		r, m = s.Query(asserts, nil, p.vars())
+	}
 	var cm *cachedModel
 	if r == Sat {
 		cm = p.addModel(m)
@@ -430,13 +436,17 @@ type Engine struct {
 	unknownBranches int
 	knownHit map[string]string
 	intercepts map[string]int
+	incHits, incMisses int
 }
+
+var noInc = os.Getenv("VERIF_NO_INC") != ""
 
 type Worker struct {
 	id      int
 	e       *Engine
 	tt      *TermTable
 	solver  *Solver
+	inc     *IncSession
 	interp  *interpreter
 	verbose bool
 	unknownBranches int
@@ -474,6 +484,17 @@ func (e *Engine) run(cases []*Case, nworkers int) {
 				s.log = f
 			}
 			defer s.Close()
+			if !noInc {
+				inc, err := NewIncSession(w.tt, 250)
+				if err == nil {
+					if e.cfg.SolverLog != "" {
+						f, _ := os.Create(fmt.Sprintf("%s.inc.%d", e.cfg.SolverLog, id))
+						inc.s.log = f
+					}
+					w.inc = inc
+					defer inc.s.Close()
+				}
+			}
 			w.interp = newInterpreter(e.prog, w)
 			w.interp.trace = e.cfg.Trace
 			for {
@@ -511,8 +532,20 @@ func (e *Engine) run(cases []*Case, nworkers int) {
 			for f, n := range w.interp.funcsSeen {
 				e.funcs[f.String()] += n
 			}
+			if e.intercepts == nil {
+				e.intercepts = map[string]int{}
+			}
+			for k, n := range w.interp.intercepts {
+				e.intercepts[k] += n
+			}
 			for k := range w.interp.initFailures {
 				e.initFailures[k] = true
+			}
+			if w.inc != nil {
+				e.incHits += w.inc.Hits
+				e.incMisses += w.inc.Misses
+				e.stats.Seconds += w.inc.s.Stats.Seconds
+				e.stats.ModelSeconds += w.inc.s.Stats.ModelSeconds
 			}
 			st := w.solver.Stats
 			e.stats.Queries += st.Queries
@@ -537,6 +570,9 @@ func (w *Worker) runPath(j job) {
 	p.models = []*cachedModel{{m: Model{}, memo: map[int]*cval{}, valid: true}}
 	w.cur = p
 	w.interp.p = p
+	if w.inc != nil {
+		w.inc.Begin()
+	}
 	status := stComplete
 	reason := ""
 	func() {
